@@ -184,6 +184,10 @@ bool CBlockIndexWorkComparator::operator()(const CBlockIndex* pa, const CBlockIn
     // Use pointer address as tie breaker (should only happen with blocks
     // loaded from disk, as those share the same id: 0 for blocks on the
     // best chain, 1 for all others).
+#ifdef BITCOIN_VERIF
+    // Simulation builds: heap layout must not decide which of several equal candidates is activated.
+    if (pa != pb && pa->phashBlock && pb->phashBlock) return *pa->phashBlock > *pb->phashBlock;
+#endif
     if (pa < pb) return false;
     if (pa > pb) return true;
 
